@@ -175,3 +175,12 @@ Proof.
   intros H tr st g v R Hr.
   exact (set_result_same_key calls (ck (calls g)) (fun g' _ => H g') tr st g v R Hr eq_refl).
 Qed.
+
+(* an execution accepted with the observed instances is a run of the system *)
+Lemma crun_obs_run calls tr : forall st st',
+  crun_obs calls st tr = Some st' -> crun calls st (map fst tr) = Some st'.
+Proof.
+  induction tr as [|[e exp] tr IH]; intros st st' H; simpl in *; auto.
+  destruct (cstep calls st e) as [st1|]; [|discriminate].
+  destruct (match e with CLoad g => _ | _ => _ end); [auto | discriminate].
+Qed.
